@@ -73,7 +73,7 @@ class CachingLoaderMixin(ABC, _CachingLoaderProtocol):
 
     def _check_cache(
         self,
-        env: Environment,  # noqa: ARG002
+        env: Environment,
         cache_key: str,
         globals: Mapping[str, object] | None,  # noqa: A002
         load_func: Callable[[], Template],
@@ -85,16 +85,18 @@ class CachingLoaderMixin(ABC, _CachingLoaderProtocol):
             self.cache[cache_key] = template
             return template
 
-        if self.auto_reload and not cached_template.is_up_to_date():
+        if cached_template.env is not env or (
+            self.auto_reload and not cached_template.is_up_to_date()
+        ):
             template = load_func()
             self.cache[cache_key] = template
             return template
 
-        return self._bind_globals(cached_template, globals)
+        return self._bind_globals(env, cached_template, globals)
 
     async def _check_cache_async(
         self,
-        env: Environment,  # noqa: ARG002
+        env: Environment,
         cache_key: str,
         globals: Mapping[str, object] | None,  # noqa: A002
         load_func: Callable[[], Awaitable[Template]],
@@ -106,26 +108,29 @@ class CachingLoaderMixin(ABC, _CachingLoaderProtocol):
             self.cache[cache_key] = template
             return template
 
-        if self.auto_reload and not await cached_template.is_up_to_date_async():
+        if cached_template.env is not env or (
+            self.auto_reload and not await cached_template.is_up_to_date_async()
+        ):
             template = await load_func()
             self.cache[cache_key] = template
             return template
 
-        return self._bind_globals(cached_template, globals)
+        return self._bind_globals(env, cached_template, globals)
 
     @staticmethod
     def _bind_globals(
+        env: Environment,
         cached_template: Template,
         globals: Mapping[str, object] | None,  # noqa: A002
     ) -> Template:
-        """Return _cached_template_ bound to _globals_.
+        """Return _cached_template_ bound to _globals_, as a fresh load would be.
 
         The cached object is shared between everyone who has loaded it, so it is
-        never modified. If it was loaded with different globals, a shallow copy
-        bound to the new globals is returned instead.
+        never modified. Unless neither load had any globals, a shallow copy bound
+        to the new globals is returned instead.
         """
-        global_data = globals or {}
-        if _same_data(cached_template.global_data, global_data):
+        global_data = env.make_globals(globals)
+        if not global_data and not cached_template.global_data:
             return cached_template
         template = copy.copy(cached_template)
         template.global_data = global_data
@@ -199,22 +204,3 @@ class CachingLoaderMixin(ABC, _CachingLoaderProtocol):
             return f"{context.globals[self.namespace_key]}/{name}"
         except KeyError:
             return name
-
-
-def _same_data(a: object, b: object) -> bool:
-    """Return _True_ if _a_ and _b_ are equal and of the same types throughout.
-
-    Equality alone is not enough to share a template between callers. `{"x": 1}`
-    equals `{"x": True}`, but they don't render the same.
-    """
-    if a is b:
-        return True
-    if type(a) is not type(b):
-        return False
-    if isinstance(a, Mapping) and isinstance(b, Mapping):
-        return len(a) == len(b) and all(
-            key in b and _same_data(value, b[key]) for key, value in a.items()
-        )
-    if isinstance(a, (list, tuple)) and isinstance(b, (list, tuple)):
-        return len(a) == len(b) and all(_same_data(x, y) for x, y in zip(a, b))
-    return a == b
